@@ -364,7 +364,11 @@ func productMemoRule(P *Program, R *Report) {
 		nCached++
 		keyed := false
 		var conds []string
+		var atoms []Atom
 		for _, a := range controllingConds(ret.Block()) {
+			atoms = append(atoms, conjunctsOf(a)...)
+		}
+		for _, a := range atoms {
 			a = normAtom(a)
 			conds = append(conds, fmt.Sprintf("%s is %s", desc(a.V), a.Want))
 			if bo, ok := a.V.(*ssa.BinOp); ok {
